@@ -454,6 +454,19 @@ theorem include_iff_contributes (items : List Item) (f : List Char) :
   rw [addGroup, mem_directives_go]
   simp
 
+/-- **the directive stands where the first element of its file stands in the writer's order** (the order in which
+    `add_group` receives the items: by uid, position restrictions applied): everything in front of it is the output of the
+    items in front of that element, and the file is not named again behind it. With `sort_new_items()` placing a new element
+    directly behind an included one this is what keeps the new element behind the directive. -/
+theorem directive_at_first_element (pre post : List Item) (it : Item) (f : List Char) (h : it.incfile = some f)
+    (hpre : ∀ x ∈ pre, x.incfile ≠ some f) :
+    ∃ tail, addGroup (pre ++ it :: post) = addGroup pre ++ Entry.directive f :: tail ∧ f ∉ directives tail :=
+  directive_at_first_go pre post it f h hpre
+
+/-- non-vacuity: own element, two elements of one file around an element of another -/
+example : addGroup [⟨['a'], none⟩, ⟨['b'], some ['f']⟩, ⟨['c'], some ['g']⟩, ⟨['d'], some ['f']⟩, ⟨['e'], none⟩] =
+    [.element ['a'], .directive ['f'], .directive ['g'], .element ['e']] := by decide
+
 /-- **included elements are not written, the others are, in order** -/
 theorem only_own_elements_written (items : List Item) :
     elements (addGroup items) = (items.filter fun it => it.incfile.isNone).map (·.name) :=
